@@ -46,6 +46,12 @@ Gen/Bootstrap_gen.vos Gen/Bootstrap_gen.vok Gen/Bootstrap_gen.required_vos: Gen/
 Model/Boot.vo Model/Boot.glob Model/Boot.v.beautified Model/Boot.required_vo: Model/Boot.v Model/Term.vo Model/Unify.vo Model/Clause.vo Model/Order.vo Model/GoInt.vo Model/F64.vo Model/Num.vo Gen/Arith_gen.vo Model/Eval.vo Model/Machine.vo Gen/Bootstrap_gen.vo
 Model/Boot.vio: Model/Boot.v Model/Term.vio Model/Unify.vio Model/Clause.vio Model/Order.vio Model/GoInt.vio Model/F64.vio Model/Num.vio Gen/Arith_gen.vio Model/Eval.vio Model/Machine.vio Gen/Bootstrap_gen.vio
 Model/Boot.vos Model/Boot.vok Model/Boot.required_vos: Model/Boot.v Model/Term.vos Model/Unify.vos Model/Clause.vos Model/Order.vos Model/GoInt.vos Model/F64.vos Model/Num.vos Gen/Arith_gen.vos Model/Eval.vos Model/Machine.vos Gen/Bootstrap_gen.vos
+Model/OpTable.vo Model/OpTable.glob Model/OpTable.v.beautified Model/OpTable.required_vo: Model/OpTable.v 
+Model/OpTable.vio: Model/OpTable.v 
+Model/OpTable.vos Model/OpTable.vok Model/OpTable.required_vos: Model/OpTable.v 
+Model/OpCheck.vo Model/OpCheck.glob Model/OpCheck.v.beautified Model/OpCheck.required_vo: Model/OpCheck.v Model/Term.vo Model/OpTable.vo Gen/Bootstrap_gen.vo
+Model/OpCheck.vio: Model/OpCheck.v Model/Term.vio Model/OpTable.vio Gen/Bootstrap_gen.vio
+Model/OpCheck.vos Model/OpCheck.vok Model/OpCheck.required_vos: Model/OpCheck.v Model/Term.vos Model/OpTable.vos Gen/Bootstrap_gen.vos
 Model/MachineCheck.vo Model/MachineCheck.glob Model/MachineCheck.v.beautified Model/MachineCheck.required_vo: Model/MachineCheck.v Model/Term.vo Model/Unify.vo Model/Clause.vo Model/Machine.vo Model/Boot.vo Model/Sld.vo Gen/Bootstrap_gen.vo
 Model/MachineCheck.vio: Model/MachineCheck.v Model/Term.vio Model/Unify.vio Model/Clause.vio Model/Machine.vio Model/Boot.vio Model/Sld.vio Gen/Bootstrap_gen.vio
 Model/MachineCheck.vos Model/MachineCheck.vok Model/MachineCheck.required_vos: Model/MachineCheck.v Model/Term.vos Model/Unify.vos Model/Clause.vos Model/Machine.vos Model/Boot.vos Model/Sld.vos Gen/Bootstrap_gen.vos
@@ -106,3 +112,9 @@ Proofs/Order.vos Proofs/Order.vok Proofs/Order.required_vos: Proofs/Order.v Mode
 Props/C08.vo Props/C08.glob Props/C08.v.beautified Props/C08.required_vo: Props/C08.v Model/Term.vo Model/Unify.vo Model/Order.vo Proofs/Order.vo
 Props/C08.vio: Props/C08.v Model/Term.vio Model/Unify.vio Model/Order.vio Proofs/Order.vio
 Props/C08.vos Props/C08.vok Props/C08.required_vos: Props/C08.v Model/Term.vos Model/Unify.vos Model/Order.vos Proofs/Order.vos
+Proofs/OpTable.vo Proofs/OpTable.glob Proofs/OpTable.v.beautified Proofs/OpTable.required_vo: Proofs/OpTable.v Model/OpTable.vo
+Proofs/OpTable.vio: Proofs/OpTable.v Model/OpTable.vio
+Proofs/OpTable.vos Proofs/OpTable.vok Proofs/OpTable.required_vos: Proofs/OpTable.v Model/OpTable.vos
+Props/C18.vo Props/C18.glob Props/C18.v.beautified Props/C18.required_vo: Props/C18.v Model/OpTable.vo Proofs/OpTable.vo Model/OpCheck.vo
+Props/C18.vio: Props/C18.v Model/OpTable.vio Proofs/OpTable.vio Model/OpCheck.vio
+Props/C18.vos Props/C18.vok Props/C18.required_vos: Props/C18.v Model/OpTable.vos Proofs/OpTable.vos Model/OpCheck.vos
